@@ -10,7 +10,7 @@
    the context's groups (From/To = the groups' replica ids, same names, no snapshot / reject /
    reject hint / context, node ids = the two ends of the stream), and frames respect the decoder's
    size limit. *)
-From ZV Require Import Common.Bytes Stream.Consts Stream.Proto Stream.Model Stream.ProofsProto Stream.Proofs Stream.Examples.
+From ZV Require Import Common.Bytes Stream.Consts Stream.Proto Stream.Model Stream.ProofsProto Stream.Proofs Stream.Wf Stream.ProofsWf Stream.Examples.
 Open Scope N_scope.
 
 (* (1) msgappv2: every well-formed sequence, of any number of interleaved raft groups, is read back
@@ -20,6 +20,20 @@ Theorem C16_v2_roundtrip : forall local remote ms,
   v2_run local remote (v2_encode_all st0 ms) = (ms, DEof).
 Proof. exact v2_roundtrip. Qed.
 Print Assumptions C16_v2_roundtrip.
+
+(* (1') the premise follows from the static description of the stream's traffic (Stream/Wf.v: what
+        raft.send + peer.pick + the writer's link heartbeats produce: MsgApp with From/To = the groups'
+        replica ids, term >= 1, node ids = the two ends, no snapshot/reject/context, group names
+        determined by the ids, sizes within the limit) — which does not mention the encoder context *)
+Theorem C16_static_premise : forall local remote ms,
+  send_wf local remote ms = true -> v2_seq_ok local remote st0 ms = true.
+Proof. exact send_wf_implies_seq_ok. Qed.
+Print Assumptions C16_static_premise.
+
+Theorem C16_v2_roundtrip_static : forall local remote ms,
+  send_wf local remote ms = true -> v2_run local remote (v2_encode_all st0 ms) = (ms, DEof).
+Proof. exact v2_roundtrip_static. Qed.
+Print Assumptions C16_v2_roundtrip_static.
 
 (* (2) the coupling invariant behind (1): after the stream both sides hold the same
        {term, index, FromGroup, ToGroup} context *)
@@ -99,6 +113,8 @@ Print Assumptions C16_frame_step.
 Example C16_ex_seq_wf : v2_seq_ok 2 1 st0 ex_seq = true.
 Proof. vm_compute. reflexivity. Qed.
 (* frame kinds of ex_seq: full, compact, compact, heartbeat, full, compact, full *)
+Example C16_ex_seq_static : send_wf 2 1 ex_seq = true.
+Proof. vm_compute. reflexivity. Qed.
 Example C16_ex_seq_frames :
   let fix kinds st ms := match ms with [] => [] | m :: r => hd 99 (v2_frame st m) :: kinds (v2_next st m) r end in
   kinds st0 ex_seq = [2; 1; 1; 0; 2; 1; 2].
